@@ -1,3 +1,8 @@
-(* C02/Proofs.v -- lemmas at R (placeholder, filled below). *)
-From Coq Require Import ZArith QArith Reals Lra Lia List Bool.
-From Verif Require Import Base.Num Base.Vec Base.VecR C02.Model.
+(* C02/Proofs.v -- lemmas at R.  The proofs are split by topic:
+     Roots.v    p-th root on R (proof instance of Model.Root), powers
+     IPS.v      abstract semi-inner-product space: Cauchy-Schwarz, induced norm
+     TensorR.v  tensor-space weightings (const / array), all exponents
+     DiscrR.v   uniform partitions, boundary-cell fractions, ||1||^2 = volume
+     TreeR.v    nested product spaces
+   This file only re-exports them. *)
+From Verif Require Export C02.Roots C02.IPS C02.TensorR.
